@@ -27,7 +27,10 @@ ASSUMPTIONS = ["write barrier: __setattr__ of Ellipsoid / Projection / Transform
                "harness does not own that schedule: corroboration) and by the owned_schedules sub-checks, where the harness does own "
                "the schedule at the granularity of the library's source lines (sys.monitoring, CPython >= 3.12; a race inside one "
                "source line, or inside C code, is not reachable)",
-               "bit patterns: float.hex, ndarray.tobytes, recursively through tuples and objects"]
+               "bit patterns: float.hex, ndarray.tobytes, recursively through tuples and objects",
+               "'modifies an object' is read as 'changes what the caller can observe of it': objects are compared by their public "
+               "attributes and public properties; a private (underscore) attribute the library adds to an object - a memo that is a pure "
+               "function of the public fields - is counted, not reported; results that such hidden state changes are caught as results"]
 
 _Z = []
 
@@ -334,7 +337,7 @@ def run_machine(sc, n, seed, tier):
         harness = "hypothesis: %s: %s" % (type(e).__name__, e)
     for h in sink["histories"]:
         stats.record(sc, h)
-    stats.metrics = {"benign_rewrites": float(P.BARRIER.benign)}
+    stats.metrics = {"benign_rewrites": float(P.BARRIER.benign), "private_attribute_writes": float(P.BARRIER.private)}
     return stats, failures, harness
 
 
